@@ -1,5 +1,6 @@
 """Self-test of the checkers against the CURRENT tree: every variant of selftest/variants.py and every
-confirmed seeded change under /verif/seeded is applied to its own scratch copy of /repo/brax (outside
+confirmed seeded change under /verif/seeded, and every behaviour-preserving refactoring under /verif/benign
+(which must leave EVERY property's check silent), is applied to its own scratch copy of /repo/brax (outside
 /repo and /verif, removed immediately) and the property's quick check is run on it in a subprocess.
 
 A breaking variant must be reported (exit 1), a benign one must stay silent (exit 0).  A checker that
@@ -53,6 +54,9 @@ def jobs_for(pid):
       continue
     if m.get('property') == pid:
       out.append((pid, 'break', '', '', '', 'seeded/' + m.get('id', ''), os.path.join(os.path.dirname(meta), 'patch.diff')))
+  # behaviour-preserving refactorings written by independent agents (benign/*.diff): every check must stay silent
+  for bp in sorted(glob.glob(os.path.join(VERIF, 'benign', '*.diff'))):
+    out.append((pid, 'benign', '', '', '', 'benign/' + os.path.basename(bp), bp))
   return out
 
 
